@@ -142,7 +142,7 @@ def run(ctx, rep):
                 msgs.append("n_type is %s" % show(ntype))
         # typed dispatch guards
         name_t = _name_term(an, calls, st, name)
-        is_gnu = _name_is(an, st, name_t, GNU) if name_t is not None else None
+        is_gnu = _name_is(an, st, name_t, GNU, name)
         nty = _ntype_term(an, calls)
         if variant in ("GnuBuildId", "GnuAbiTag"):
             wantv = BUILD_ID if variant == "GnuBuildId" else ABI_TAG
@@ -244,8 +244,22 @@ def _name_term(an, calls, st=None, name_norm=None):
     return None
 
 
-def _name_is(an, st, name_t, const_bytes):
-    """True iff the path facts pin len(name) and every byte to the constant"""
+def _name_is(an, st, name_t, const_bytes, name_norm=None):
+    """True iff the path facts pin len(name) and every byte to the constant (a slice pattern), or the whole-slice comparison
+    `name == b"GNU\\0"` holds on the path"""
+    def strip(x):
+        while x.op in ("deref", "refval"):
+            x = x.args[0]
+        return x
+    for f in st.facts:
+        if f[0] in ("true", "false") and f[1].op == "bin" and f[1].args[0] in ("Eq", "Ne"):
+            a_, b_ = strip(f[1].args[1]), strip(f[1].args[2])
+            for x_, k_ in ((a_, b_), (b_, a_)):
+                same = (name_t is not None and x_ is strip(name_t)) or (name_norm is not None and norm(x_) == name_norm)
+                if same and k_.op == "bytes" and bytes(k_.args[0]) == bytes(const_bytes):
+                    return True if (f[0] == "true") == (f[1].args[0] == "Eq") else None
+    if name_t is None:
+        return None
     if ("eq", T.length(name_t), len(const_bytes)) not in st.facts:
         return None
     for i, b in enumerate(const_bytes):
